@@ -15,9 +15,10 @@ PLAN = {
         "assumptions": ["in-memory reader/writer never fail", "test service TS is the only registered interface"],
     },
     "C02": {
-        "pkg": ["vts", "vh"],
+        "pkg": ["vts", "vh", "vproc"],
+        "needs_repo_bins": ["ping"],
         "level": "model_checking",
-        "parts": [part("mc_proto", "c02", q=16, t=16), part("mc_server", "c02", q=16, t=16, tq=200, tt=2400)],
+        "parts": [part("mc_proto", "c02", q=16, t=16), part("mc_server", "c02", q=16, t=16, tq=200, tt=2400), part("procx", "c02m", q=16, t=16, tq=200, tt=1200)],
         "assumptions": ["caller keeps tail ++ unread remainder of its own reader between handle() calls"],
     },
     "C03": {
